@@ -44,6 +44,14 @@ def control (look : Bytes → Entry) : List Bytes → Option (Bytes × Entry)
   | [] => none
   | n :: rest => if look n = .missing then control look rest else some (n, look n)
 
+/-- qmail-command(8): "DEFAULT is the portion corresponding to the default part of the .qmail-... file name;
+DEFAULT is not set if the file name does not end with default".  `ctl` is the control file that was selected. -/
+def defaultVar (dash ext ctl : Bytes) : Option Bytes :=
+  let sx := ext.map safeChar
+  if ctl = dotQmail ++ dash ++ sx then
+    (if 7 ≤ sx.length ∧ sx.drop (sx.length - 7) = dflt then some (ext.drop (ext.length - 7)) else none)
+  else some (ext.drop (ctl.length - (6 + dash.length + 7)))
+
 /-- a relative name that cannot leave the directory it is resolved in: it begins with ".qmail" and
 contains no ".." -/
 def hasDotDot : Bytes → Bool
@@ -137,6 +145,7 @@ inductive Effect
 
 /-- running state of the walk over the instructions -/
 structure Walk where
+  first : Bool := true             -- no line has been read yet
   forwardOnly : Bool
   effects : List Effect := []      -- reversed
   recips : List Bytes := []        -- reversed
@@ -146,19 +155,21 @@ structure Walk where
 
 /-- one instruction: "follows each instruction in turn … If a delivery instruction fails, qmail-local
 stops immediately … handles forwarding after all other instructions … exit code 99: ignores all
-succeeding lines" ; an executable .qmail "must not contain any program, mbox or maildir lines … temporary failure" -/
-def step (doit : Bool) (run : Bytes → Ran) (fileOK : SInstr → Nat) (w : Walk) (ix : Nat × SInstr) : Walk :=
-  if w.status.isSome then w else
-  match ix.2 with
+succeeding lines" ; an executable .qmail "must not contain any program, mbox or maildir lines … temporary
+failure" ; "Blank lines are allowed, but not for the first line" -/
+def step (doit : Bool) (run : Bytes → Ran) (fileOK : SInstr → Nat) (w0 : Walk) (i : SInstr) : Walk :=
+  if w0.status.isSome then w0 else
+  let w := { w0 with first := false }
+  match i with
   | .nothing => w
-  | .blank => if ix.1 = 0 then { w with status := some 111 } else w
+  | .blank => if w0.first then { w with status := some 111 } else w
   | .list => { w with forwardOnly := true }
-  | .forward a => { w with recips := upToNul a :: w.recips, shown := ix.2 :: w.shown }
+  | .forward a => { w with recips := upToNul a :: w.recips, shown := i :: w.shown }
   | .program c =>
     if w.forwardOnly then { w with status := some 111 }
-    else if !doit then { w with shown := ix.2 :: w.shown }
+    else if !doit then { w with shown := i :: w.shown }
     else
-      let w' := { w with effects := .program (upToNul c) :: w.effects, shown := ix.2 :: w.shown }
+      let w' := { w with effects := .program (upToNul c) :: w.effects, shown := i :: w.shown }
       match run (upToNul c) with
       | .crashed => { w' with status := some 111 }
       | .exited code =>
@@ -169,16 +180,20 @@ def step (doit : Bool) (run : Bytes → Ran) (fileOK : SInstr → Nat) (w : Walk
         | .soft => { w' with status := some 111 }
   | .mbox f =>
     if w.forwardOnly then { w with status := some 111 }
-    else if !doit then { w with shown := ix.2 :: w.shown }
+    else if !doit then { w with shown := i :: w.shown }
     else
-      let w' := { w with effects := .mbox (upToNul f) :: w.effects, shown := ix.2 :: w.shown }
-      if fileOK ix.2 = 0 then w' else { w' with status := some (fileOK ix.2) }
+      let w' := { w with effects := .mbox (upToNul f) :: w.effects, shown := i :: w.shown }
+      if fileOK i = 0 then w' else { w' with status := some (fileOK i) }
   | .maildir f =>
     if w.forwardOnly then { w with status := some 111 }
-    else if !doit then { w with shown := ix.2 :: w.shown }
+    else if !doit then { w with shown := i :: w.shown }
     else
-      let w' := { w with effects := .maildir (upToNul f) :: w.effects, shown := ix.2 :: w.shown }
-      if fileOK ix.2 = 0 then w' else { w' with status := some (fileOK ix.2) }
+      let w' := { w with effects := .maildir (upToNul f) :: w.effects, shown := i :: w.shown }
+      if fileOK i = 0 then w' else { w' with status := some (fileOK i) }
+
+/-- the walk over the lines of a control file -/
+def walk (doit : Bool) (forwardOnly : Bool) (run : Bytes → Ran) (fileOK : SInstr → Nat) (lines : List Bytes) : Walk :=
+  (lines.map readLine).foldl (step doit run fileOK) { forwardOnly := forwardOnly }
 
 /-- The lines of the instruction text: every LF ends a line and the text after the last LF (if any) is
 a line too; a final LF does not start another, empty line. -/
@@ -200,8 +215,7 @@ structure Expect where
 /-- the documented outcome of following `text` -/
 def follow (doit : Bool) (forwardOnly : Bool) (text sender : Bytes) (run : Bytes → Ran) (fileOK : SInstr → Nat)
     (queueCode : Nat) : Expect :=
-  let ins := (instrLines text).map readLine
-  let w := ((List.range ins.length).zip ins).foldl (step doit run fileOK) { forwardOnly := forwardOnly }
+  let w := walk doit forwardOnly run fileOK (instrLines text)
   let shown := w.shown.reverse
   let cnt := (shown.filter (fun i => match i with | .mbox _ => true | .maildir _ => true | _ => false)).length
   let cntF := (shown.filter (fun i => match i with | .forward _ => true | _ => false)).length
